@@ -152,6 +152,11 @@ static bool same(const Finger& a, const Finger& b, ld& maxdiff)
     return ok;
 }
 
+// Shift families: the call site installs a toggle that makes make_solver() build its solver with ANOTHER shift (true) or with the shift of
+// the case (false). Used for the history "a solver with another shift used these wrapper objects before": the operator object is factorized
+// anew by every solver that is constructed on it, and nothing of the earlier factorization may survive in it.
+static std::function<void(bool)> g_toggle_shift;
+
 // ---- generic differential driver ----
 // make_ops(): fresh wrapper object(s); make_solver(ops): a solver on them (installs the shift); finger(ops, variant): bitwise answers
 template <typename S, typename MakeOps, typename MakeSolver, typename FingerFn>
@@ -179,15 +184,33 @@ static void drive(vf::Draw& d, vf::Case& c, int family, Index n, MakeOps make_op
     }
     // (ii) wrapper objects with a history: other runs, other solvers, the user's own calls
     auto ops = make_ops();
+    if (g_toggle_shift && d.flag("earlier_solver_with_other_shift"))
+    {
+        g_toggle_shift(true);
+        try
+        {
+            Args a = draw_args(d, family);
+            auto other = make_solver(*ops);
+            do_init<S>(*other, n, a);
+            other->compute(vf::ALL_RULES[a.sel], (Index) a.maxit, (Real) a.tol, vf::ALL_RULES[a.sort]);
+            c.cls("earlier_solver_with_other_shift");
+            os << " | earlier solver on the same wrappers with another shift: init+compute(" << vf::ALL_RULE_NAMES[a.sel] << ",maxit=" << a.maxit << ")";
+        }
+        catch (const std::exception&)
+        {
+            c.cls("earlier_solver_with_other_shift/threw");  // e.g. the other shift is singular: the wrapper object has seen a failed factorization
+        }
+        g_toggle_shift(false);
+    }
     auto eigs = make_solver(*ops);
     Finger f0 = finger(*ops, 0);
-    VF_CHECK(same(f0, f_base, md), "operator_not_deterministic", "two wrappers built from the same matrices differ: max diff " << vf::num(md));
+    VF_CHECK(same(f0, f_base, md), "operator_not_deterministic", "two wrappers built from the same matrices differ (or a wrapper that an earlier solver used with another shift differs from a fresh one): max diff " << vf::num(md));
     int nprefix = (int) d.range("prefix_len", 0, 4);
     int prefix_uses = 0;
     os << " | prefix:";
     for (int k = 0; k < nprefix; k++)
     {
-        int kind = (int) d.range("prefix_op", 0, 3);
+        int kind = (int) d.range("prefix_op", 0, g_toggle_shift ? 4 : 3);
         try
         {
             if (kind == 0)
@@ -217,6 +240,28 @@ static void drive(vf::Draw& d, vf::Case& c, int family, Index n, MakeOps make_op
                 prefix_uses++;
                 os << " other solver init+compute(" << vf::ALL_RULE_NAMES[a.sel] << ",maxit=" << a.maxit << ")";
                 c.cls("prefix_with_other_solver");
+            }
+            else if (kind == 4)
+            {
+                // another solver with ANOTHER shift on the same wrapper objects (run, destroyed); afterwards the solver under test is
+                // constructed again, which installs the shift of the case again
+                Args a = draw_args(d, family);
+                g_toggle_shift(true);
+                try
+                {
+                    auto other = make_solver(*ops);
+                    do_init<S>(*other, n, a);
+                    other->compute(vf::ALL_RULES[a.sel], (Index) a.maxit, (Real) a.tol, vf::ALL_RULES[a.sort]);
+                }
+                catch (const std::exception&)
+                {
+                    os << "[other shift threw]";
+                }
+                g_toggle_shift(false);
+                eigs = make_solver(*ops);
+                prefix_uses++;
+                os << " other solver with another shift init+compute(" << vf::ALL_RULE_NAMES[a.sel] << ",maxit=" << a.maxit << "), solver under test constructed again";
+                c.cls("prefix_with_other_shift_solver");
             }
             else
             {
@@ -318,7 +363,18 @@ static void run_case(vf::Draw& d, vf::Case& c)
     const Index n = P.n, nev = P.nev, ncv = P.ncv;
     const bool sparse_kind = (kind == 1 || kind == 3 || kind == 5 || kind == 7 || kind == 9 || kind == 11 || kind == 13 || kind == 14 || kind == 16);
     const Index bw = sparse_kind ? (Index) d.range("bandwidth", 1, std::max<Index>(1, n - 1)) : n;
-    const Real sr = (Real) P.sigma.real(), si = (Real) P.sigma.imag();
+    Real sr = (Real) P.sigma.real(), si = (Real) P.sigma.imag();
+    const Real sr0 = sr, si0 = si;
+    g_toggle_shift = nullptr;
+    if (vf::family_has_shift(family))
+    {
+        // the other shift: moved by 0.3 spectral scales (and another imaginary part); whether it is regular is not checked, a throw is fine
+        const Real sr_alt = (Real) ((ld) sr0 + (ld) 0.3 * (P.normA / std::sqrt((ld) P.n) + std::abs((ld) sr0))), si_alt = (Real) ((ld) si0 * (ld) 1.5);
+        g_toggle_shift = [&sr, &si, sr0, si0, sr_alt, si_alt](bool on) {
+            sr = on ? sr_alt : sr0;
+            si = on ? si_alt : si0;
+        };
+    }
     if (kind <= 11)
     {
         // a band-limited matrix has other eigenvalues: keep the shift regular by checking the shifted matrix directly
@@ -475,6 +531,14 @@ static void run_case(vf::Draw& d, vf::Case& c)
         if (s == 0)
             s = spread / 5;
         sigma = (Real) s;
+    }
+    const Real sigma0 = sigma;
+    g_toggle_shift = nullptr;
+    if (kind >= 15)
+    {
+        // the other shift of the "solver with another shift used these wrappers before" history: twice as far from the spectrum
+        const Real sigma_alt = (Real) ((ld) sigma0 * 2);
+        g_toggle_shift = [&sigma, sigma0, sigma_alt](bool on) { sigma = on ? sigma_alt : sigma0; };
     }
     switch (kind)
     {
